@@ -18,6 +18,7 @@ import (
 	"testing"
 	"time"
 
+	"github.com/go-logr/logr"
 	"github.com/go-logr/stdr"
 	"github.com/hashicorp/go-hclog"
 	"github.com/sirupsen/logrus"
@@ -44,9 +45,11 @@ type Config struct {
 }
 
 type Op struct {
-	Kind string  `json:"op"` // log | err | logsource | loggersource | append
+	Kind string  `json:"op"` // log | err | logsource | loggersource | append | appendlogr
 	Len  int     `json:"len,omitempty"`
 	New  *Config `json:"new_member,omitempty"`
+	// N: append: that many members (of the kind New) in ONE Append call; appendlogr: that many logr loggers in ONE AppendLogger call
+	N int `json:"n,omitempty"`
 }
 
 type Case struct {
@@ -92,6 +95,11 @@ type leaf struct {
 	since    int64 // logical time from which the leaf is a member (0 = from the start); before joinBegin: must not receive
 	joinFrom int64 // logical time at which the Append that added it began
 }
+
+var (
+	pastMu   sync.Mutex
+	pastDirs []string // directories of the file sinks of earlier cases of this process
+)
 
 type droppedCounter struct {
 	mu    sync.Mutex
@@ -369,7 +377,14 @@ func checkCase(t ev.T, test string, c Case) {
 		}
 	}()
 	dir, _ := os.MkdirTemp("", "c13-")
-	defer os.RemoveAll(dir)
+	defer func() {
+		os.RemoveAll(dir)
+		pastMu.Lock()
+		if pastDirs = append(pastDirs, dir); len(pastDirs) > 64 {
+			pastDirs = pastDirs[1:]
+		}
+		pastMu.Unlock()
+	}()
 	b := &builder{dir: dir}
 	var logger logs.Loggers
 	var leaves []*leaf
@@ -425,15 +440,44 @@ func checkCase(t ev.T, test string, c Case) {
 					_ = logger.SetLoggerSource(fmt.Sprintf("src-%d", p%2))
 				case "append":
 					if multi != nil && op.New != nil {
+						var ls []logs.Loggers
+						var lfs []*leaf
 						leafMu.Lock()
-						l, lf, err := b.build(*op.New)
+						for k := 0; k < maxInt(1, op.N); k++ {
+							if l, lf, err := b.build(*op.New); err == nil {
+								ls, lfs = append(ls, l), append(lfs, lf...)
+							}
+						}
 						leafMu.Unlock()
-						if err == nil {
+						if len(ls) > 0 {
 							from := clock.Add(1)
-							_ = multi.Append(l)
+							_ = multi.Append(ls...)
 							since := clock.Add(1)
 							leafMu.Lock()
-							for _, x := range lf {
+							for _, x := range lfs {
+								x.joinFrom, x.since = from, since
+								leaves = append(leaves, x)
+							}
+							leafMu.Unlock()
+						}
+					}
+				case "appendlogr":
+					if multi != nil {
+						var ls []logr.Logger
+						var lfs []*leaf
+						for k := 0; k < maxInt(1, op.N); k++ {
+							cp := &capture{}
+							ls = append(ls, stdr.New(log.New(cp, "", 0)))
+							lf := &leaf{name: fmt.Sprintf("logr-appended-by-p%d-%d", p, k), out: cp.String, err: cp.String, same: true, wantOut: true, wantErr: true}
+							lfs = append(lfs, lf)
+						}
+						from := clock.Add(1)
+						aerr := multi.AppendLogger(ls...)
+						since := clock.Add(1)
+						if aerr == nil {
+							// (a refused call - e.g. no logger source defined yet - adds nobody)
+							leafMu.Lock()
+							for _, x := range lfs {
 								x.joinFrom, x.since = from, since
 								leaves = append(leaves, x)
 							}
@@ -484,6 +528,21 @@ func checkCase(t ev.T, test string, c Case) {
 	}
 	_ = logger.Close
 	restore()
+	// a message is delivered to its own sink and to no other: the file sinks of the loggers of earlier cases (removed with
+	// their directory) must not come back to life
+	pastMu.Lock()
+	for _, d := range pastDirs {
+		if es, err := os.ReadDir(d); err == nil {
+			var names []string
+			for _, e := range es {
+				names = append(names, e.Name())
+			}
+			os.RemoveAll(d)
+			pastMu.Unlock()
+			ev.Fail(t, prop, test, c, "the directory of the file sinks of an earlier logger (closed, its files removed) was re-created while this logger was in use: %s now holds %v - messages were also delivered to a sink of another logger", d, names)
+		}
+	}
+	pastMu.Unlock()
 	// judge every leaf
 	for _, lf := range leaves {
 		contents := []struct {
@@ -649,7 +708,7 @@ func genCase(t *rapid.T) Case {
 		}
 		sourceOps := 0
 		for i := 0; i < n; i++ {
-			k := rapid.SampledFrom([]string{"log", "log", "log", "err", "err", "err", "logsource", "loggersource", "append"}).Draw(t, fmt.Sprintf("op%d-%d", s, i))
+			k := rapid.SampledFrom([]string{"log", "log", "log", "err", "err", "err", "logsource", "loggersource", "append", "appendlogr"}).Draw(t, fmt.Sprintf("op%d-%d", s, i))
 			if k == "logsource" || k == "loggersource" {
 				// logr based loggers append every new source to their name: a handful of changes per producer is
 				// enough to race with the log calls, more only makes every line kilobytes long
@@ -669,6 +728,14 @@ func genCase(t *rapid.T) Case {
 				} else {
 					nk := rapid.SampledFrom([]string{"string", "json", "zap", "plainstring", "slog"}).Draw(t, fmt.Sprintf("nk%d-%d", s, i))
 					op.New = &Config{Kind: nk}
+					op.N = rapid.SampledFrom([]int{1, 1, 2, 3}).Draw(t, fmt.Sprintf("nn%d-%d", s, i))
+				}
+			case "appendlogr":
+				if !composite || rapid.IntRange(0, 3).Draw(t, fmt.Sprintf("reallyl%d-%d", s, i)) > 0 {
+					op.Kind = "log"
+					op.Len = 10
+				} else {
+					op.N = rapid.SampledFrom([]int{1, 2, 2, 3}).Draw(t, fmt.Sprintf("nl%d-%d", s, i))
 				}
 			}
 			script = append(script, op)
@@ -752,4 +819,11 @@ func TestEveryConstructor(t *testing.T) {
 		}
 	}
 	ev.Bulk(n, n, "every-constructor")
+}
+
+func maxInt(a, b int) int {
+	if a > b {
+		return a
+	}
+	return b
 }
